@@ -93,6 +93,7 @@ class Index:
         self.end_seq = R[-1]['seq'] + 1 if R else 0
         self.has_spawn = any(r['k'] == 'spawn' for r in R)
         self.reg_seq = {r['h']: r['seq'] for r in R if r['k'] == 'on'}
+        self.gparent = {g: r['by'] for r in R if r['k'] == 'gather' for g in r['gids']}  # gather helper task -> awaiting handler
         self._hf_cache = {}
         self.sane = not meta.get('hang') and not meta.get('abort')
         # payload specs the harness attached to events it created (scenario ops carry them)
@@ -251,7 +252,7 @@ class Index:
                 if any(d in items_by_ev for d in self.desc(ev)):
                     continue
                 leaf_mech = None
-                if isinstance(me, str) and me.startswith('S'):
+                if isinstance(me, str) and me[:1] in ('S', 'G'):
                     leaf_mech = 'F14'
                 elif self.held_by_other(ev, at_seq, me):
                     leaf_mech = 'F1'
@@ -262,7 +263,7 @@ class Index:
                 _k, _ev, label, _st = it
                 bus = int(label[1:label.index('.')]) if label.startswith('B') and '.' in label else None
                 leaf_mech = None
-                if isinstance(me, str) and me.startswith('S'):
+                if isinstance(me, str) and me[:1] in ('S', 'G'):
                     leaf_mech = 'F14'
                 elif bus is not None and (self.via_forward(ev, bus) or self.tainted_inv(self.disp_by.get(ev))):
                     leaf_mech = 'F4'
@@ -370,7 +371,9 @@ def c02(ix: Index) -> None:
                     ix.C['c02_allowed_jumps'] += 1
                     continue
                 # F1 signature: the overtaken event had already been dequeued by a party that could not start it yet
-                d1 = [d for d in ix.deqs if d['bus'] == bus and d['ev'] == e1 and d['seq'] < p2['seq']]
+                # (the bus's own run loop took it with queue.get() and is waiting for the global lock; an awaiting handler's drain, in
+                # contrast, starts what it takes at once - an event taken by a drain and then held back is not this mechanism)
+                d1 = [d for d in ix.deqs if d['bus'] == bus and d['ev'] == e1 and d['seq'] < p2['seq'] and not isinstance(d['by'], int)]
                 mech = 'F1' if d1 and (p1 is None or p1['seq'] > p2['seq']) else None
                 if mech is None and ix.has_spawn:
                     mech = 'F14'
@@ -506,18 +509,20 @@ def _hang_mech(ix: Index, tree: set):
 def c04(ix: Index) -> None:
     for a in ix.awaits:
         by = a['by']
-        if not (isinstance(by, int) or (isinstance(by, str) and by.startswith('S'))):
+        if not (isinstance(by, int) or (isinstance(by, str) and by[:1] in ('S', 'G'))):
             continue
         ix.C['c04_awaits'] += 1
+        if isinstance(by, str) and by[:1] == 'G':
+            ix.C['c04_awaits_in_gather_helper_tasks'] += 1
         e = a['e']
         if e is None:
             # no return: fine if the awaiting handler was cancelled / is itself blocked for a recorded reason
-            if isinstance(by, int):
-                x = ix.exit.get(by)
+            if isinstance(by, int) or by in ix.gparent:
+                x = ix.exit.get(by if isinstance(by, int) else ix.gparent[by])
                 if x is not None and x['out'] == 'cancel' and x['seq'] < ix.quiet_seq:
                     continue  # cancelled during the scenario (timeout); a handler only ended by tear-down never returned
             if ix.sane and not _stopped_buses(ix):
-                ix.v('C04', 'await-never-returns', 'F14' if isinstance(by, str) else _hang_mech(ix, {a['ev']} | ix.desc(a['ev'])), ev=a['ev'], by=by)
+                ix.v('C04', 'await-never-returns', 'F14' if isinstance(by, str) and by.startswith('S') else _hang_mech(ix, {a['ev']} | ix.desc(a['ev'])), ev=a['ev'], by=by)
             continue
         if e['exc'] is not None:
             if e['exc'] != 'CancelledError':
@@ -843,6 +848,7 @@ def c13(ix: Index) -> None:
 # ======================================================================== C14
 def c14(ix: Index) -> None:
     fin = ix.final['events']
+    stopped14 = _stopped_buses(ix)
     accepted_evs = collections.Counter()
     for r in ix.enq_ok:
         accepted_evs[(r['ev'], r['bus'])] += 1
@@ -865,11 +871,17 @@ def c14(ix: Index) -> None:
                 by = ix.disp_by.get(ev)
                 if isinstance(by, int):
                     p = ix.inv[by]['ev']
+                    tree = {p} | ix.desc(p)
+                    if any(e in tree and b in stopped14 for (e, b) in ix.accepted):
+                        continue  # a stopped bus abandons what it had accepted: the would-be parent may stay open for that reason
                     if not fin.get(p, {}).get('sig'):
                         # would-be parent must still complete (unless something else legitimately keeps it open)
                         others = [c for c in ix.kids.get(p, []) if not fin.get(c, {}).get('sig')]
                         if not others:
-                            ix.v('C14', 'rejected-dispatch-blocks-parent', _hang_mech(ix, {p} | ix.desc(p)), parent=p, ev=ev)
+                            mech = _hang_mech(ix, {p} | ix.desc(p))
+                            if mech == 'F5' and stopped14:
+                                continue  # the parent's processing was abandoned when a stopped bus's handler (driving it inline) was cancelled
+                            ix.v('C14', 'rejected-dispatch-blocks-parent', mech, parent=p, ev=ev)
             if not anywhere and fin.get(ev, {}).get('path') and not ix.mk[ev].get('prepath'):
                 ix.v('C14', 'rejected-event-has-path', None, ev=ev, path=fin[ev]['path'])
     if ix.sane:
@@ -880,6 +892,11 @@ def c14(ix: Index) -> None:
                 # every accepted dispatch is a queue entry of its own and is taken for processing (a second pass over an event
                 # that already has its results runs no handler, but it is processed): accepted n times => processed n times
                 ix.v('C14', 'accepted-event-never-processed', _hang_mech(ix, {ev}), ev=ev, bus=bus, accepted=n, processed=done)
+    for r in ix.enq_ok:
+        # nothing can run between the queue accepting the event and dispatch() returning: an event that is not in the bus's
+        # queue at that moment was not accepted at all, whatever dispatch() returned
+        if r.get('inq') is False:
+            ix.v('C14', 'dispatch-returned-without-queueing', None, ev=r['ev'], bus=r['bus'], by=r['by'])
     for r in ix.R:
         if r['k'] == 'enq_call':
             nxt = next((q for q in ix.R if q['seq'] > r['seq'] and q['k'] in ('enq_ok', 'enq_raise') and q['ev'] == r['ev'] and q['bus'] == r['bus']), None)
@@ -898,6 +915,8 @@ def c15(ix: Index) -> None:
     rets = {}
     for r in ix.R:
         if r['k'] in ('idle_ret', 'idle_hang'):
+            if r['k'] == 'idle_ret' and r['by'] != 'M' and r['seq'] > ix.quiet_seq:
+                continue  # only returned after quiescence (released by the harness's own probe or by tear-down): see its idle_hang record
             call_seq = r['call'] if r['by'] == 'M' else next((c['seq'] for c in calls.values() if c['call'] == r['call'] and c['by'] == r['by']), None)
             rets[call_seq] = r
     for cseq, c in calls.items():
@@ -933,15 +952,21 @@ def c15(ix: Index) -> None:
 
 
 def _hang_mech_bus(ix: Index, bus: int, rec: dict | None = None):
-    """F5 leaves the event that was open in the drain of a cancelled handler / cancelled await unfinished for ever: that bus
-    keeps a 'started' (or 'pending') event and therefore never reports idle.  A bus whose hang record shows nothing pending and
-    nothing started is NOT explained by F5 (the queue's unfinished-task count was left behind: repaired, see 'fixed' F25)."""
-    if rec is not None and rec.get('k') == 'idle_hang' and not rec.get('pend') and not rec.get('started'):
+    """F5 leaves the event that was open in the drain of a cancelled handler / cancelled await unfinished for ever (and with it
+    its ancestors): every bus that has such an event in its history keeps a 'started' (or 'pending') event and therefore never
+    reports idle.  A bus whose hang record shows nothing pending and nothing started is NOT explained by F5 (the queue's
+    unfinished-task count was left behind: repaired, see 'fixed' F25); neither is a stuck event that F5 does not touch."""
+    ab = abandoned_procs(ix)
+    abev = {p['b']['ev'] for p in ab}
+    if rec is not None and rec.get('k') == 'idle_hang':
+        stuck = set(rec.get('pend') or []) | set(rec.get('started') or [])
+        if stuck and all(e in abev or (ix.desc(e) & abev) for e in stuck):
+            return 'F5'
         return 'F14' if ix.has_spawn else None
     fin = ix.final['events']
-    for p in abandoned_procs(ix):
-        if bus < 0 or p['b']['bus'] == bus:
-            if rec is None and fin.get(p['b']['ev'], {}).get('status') == 'completed':
+    for p in ab:
+        if bus < 0 or p['b']['bus'] == bus or any(e == p['b']['ev'] and b2 == bus for (e, b2) in ix.accepted):
+            if fin.get(p['b']['ev'], {}).get('status') == 'completed':
                 continue
             return 'F5'
     if ix.has_spawn:
@@ -1041,12 +1066,18 @@ def c10(ix: Index) -> None:
     """Handler timeouts are enforced and contained."""
     fin = ix.final['events']
     fired = []
+    has_busy = any(r['k'] == 'op' and r['op'] == 'busy' for r in ix.R)
     for inv, i in ix.inv.items():
         to = ix.mk.get(i['ev'], {}).get('timeout')
         if to is None:
             continue
         x = ix.exit.get(inv)
         deadline = i['vt'] + to
+        # the library arms the timer when it starts the handler, the body is entered at the same virtual instant - unless blocking
+        # user code (sync 'busy') holds the loop in between: then the timer was armed somewhere between the start of this bus's
+        # processing of the event and the body's first step
+        pb = ix.procs.get(i['pid'])
+        deadline_lo = (pb['b']['vt'] if pb is not None and has_busy else i['vt']) + to
         ix.C['c10_timed_invocations'] += 1
         kind = ix.sc['handlers'][i['h']].get('kind', 'async')
         if kind.startswith('s'):
@@ -1055,7 +1086,7 @@ def c10(ix: Index) -> None:
         if ended is not None and ended < deadline - EPS:
             # finished in time - unless it was CANCELLED before its own deadline without an enclosing handler's timeout explaining it
             hc0 = next((r for r in ix.R if r['k'] == 'h_cancelled' and r['inv'] == inv), None)
-            if x['out'] == 'cancel' and hc0 is not None and hc0['vt'] < deadline - 1e-3:
+            if x['out'] == 'cancel' and hc0 is not None and hc0['vt'] < deadline_lo - 1e-3:
                 explained = False
                 for up in ix.driver_chain(inv)[1:]:
                     if isinstance(up, int) and up in ix.inv:
@@ -1079,8 +1110,10 @@ def c10(ix: Index) -> None:
         res = next((q for q in fin.get(i['ev'], {}).get('results', []) if q['hid'] == f"B{i['bus']}.h{i['h']}"), None)
         # (a) cancelled at that time and stops executing
         late_ops = [r for r in ix.R if r['k'] == 'op' and r['op'] != 'cleanup_disp' and r['by'] == inv and r['vt'] > deadline + 1e-3]
-        if x is None or x['out'] != 'cancel' or x['vt'] > deadline + 1e-3 or late_ops:
-            if ended is None or ended > deadline + 1e-3 or late_ops:
+        # blocking (sync) user code that holds the loop across the deadline delays the delivery of the cancellation by that much
+        blocked = sum(_busy_len(ix, r) for r in ix.R if r['k'] == 'op' and r['op'] == 'busy' and r['vt'] <= deadline + 1e-3 and r['vt'] + _busy_len(ix, r) >= deadline - 1e-3) if has_busy else 0.0
+        if x is None or x['out'] != 'cancel' or x['vt'] > deadline + blocked + 1e-3 or late_ops:
+            if ended is None or ended > deadline + blocked + 1e-3 or late_ops:
                 ix.v('C10', 'handler-runs-past-timeout', None, ev=i['ev'], h=i['h'], deadline=deadline, exit=x and {'out': x['out'], 'vt': x['vt']}, late_ops=len(late_ops))
         # (b) result is a TimeoutError error
         if ix.sane and (res is None or res['status'] != 'error' or res['err'] != 'TimeoutError'):
